@@ -3,7 +3,7 @@
    (contract, deliver_one, cover, justified, sound_along); proofs: Proofs/ContractProofs.v. *)
 Require Import WD.Base.Prelude WD.Base.BStr WD.Model.SubEvents WD.Model.Emitter WD.Model.Fs WD.Model.Reader
                WD.Model.DelayQueue WD.Model.Grouping WD.Model.Pipeline WD.Model.Contract.
-Require Import WD.Proofs.ContractProofs.
+Require Import WD.Proofs.ContractProofs WD.Proofs.TieProofs.
 
 (* ================================================================== soundness: shape of what [emit] produces *)
 (* Hold for every item, every configuration, every content oracle - no hypothesis. *)
@@ -240,13 +240,17 @@ Print Assumptions C03_phantom_delivered.
 
 (* ================================================================== tie to the Pipeline model *)
 (* [deliver_one] is what the Pipeline model (validated in lock-step against the real observer) delivers for
-   AOp o; ARead (whole queue); ATick delay; AEmit ... from a state whose buffer is idle.  Stated; checked by
-   computation on every operation kind of the example world (below); not proved in general. *)
-Definition C03_pipeline_tie_full : Prop := forall P s o evs,
+   AOp o; ARead (whole kernel queue); ATick delay; AEmit x nit, from any state whose buffer is idle (nothing queued,
+   nothing being grouped, consumer outside get(), not closed), whose emitter has not stopped, whose kernel queue is
+   empty and whose event-id table is consistent: the events appended to p_out are exactly [deliver_one]'s list.
+   No event filter. *)
+Theorem C03_pipeline_tie : forall P s o evs,
   pc_filter P = None -> buffer_idle (p_buf s) -> p_stopped s = false -> k_queue (p_k s) = [] ->
   (forall id, In id (map fst (p_tbl s)) -> (id < p_next s)%N) ->
   deliver_one (pc_reader P) (pc_full P) (p_world s) (p_k s) (p_r s) o = Some evs ->
   exists nit s' obs, prun P s (tie_history P s o nit) [] = Done (s', obs) /\ p_out s' = p_out s ++ evs.
+Proof. exact pipeline_tie_holds. Qed.
+Print Assumptions C03_pipeline_tie.
 
 (* ================================================================== non-vacuity *)
 (* World: /R (watched), /O (outside); /R/d dir, /R/d/f file, /R/d/e empty dir, /R/x file, /O/y file, /O/z dir, /O/z/g.
@@ -351,7 +355,7 @@ Example C03_contract_rename_dir_replacing_example :
          mk DirModified ex_Rde []].
 Proof. vm_compute. repeat split; try discriminate. repeat constructor; eexists; repeat split. Qed.
 
-(* the Pipeline tie on the example world: for each of the 15 operations of [ex_ops] that applies, the Pipeline
+(* C03_pipeline_tie on the example world, by computation: for each of the 15 operations of [ex_ops] that applies, the Pipeline
    run AOp; ARead; ATick; AEmit x6 from the initial state appends exactly [deliver_one]'s list to p_out -
    recursive and non-recursive watch, normal and full emitter *)
 Example C03_pipeline_tie_examples :
